@@ -162,15 +162,22 @@ def generate(rng, cfg: Dict) -> Dict:
         sc["domains"] = [{"id": 0, "kind": c.weighted([("gen", 4), ("list", 1)]), "items": items}]
         sc["vars"] = []
         kw = {}
+        model = c.pick(items)  # the pattern is modelled on one element so that most patterns match something
+        like = c.chance(0.75)
         for name in c.sample(["a", "b", "ref", "xs"], c.int(1, 3)):
             if name in ("a", "b"):
-                kw[name] = ["lit", c.int(0, 3)]
+                kw[name] = ["lit", model[name] if like else c.int(0, 3)]
             elif name == "xs":
-                kw[name] = ["lit", c.pick([c.int(0, 3), [c.int(0, 3) for _ in range(c.int(1, 2))]])]
+                kw[name] = ["lit", c.pick(model["xs"]) if (like and model["xs"]) else c.pick([c.int(0, 3), [c.int(0, 3) for _ in range(c.int(1, 2))]])]
+            elif model["ref"] is None:
+                continue
             elif c.chance(0.5):
-                kw[name] = ["item", c.int(0, n - 1)]
+                kw[name] = ["item", model["ref"] if like else c.int(0, n - 1)]
             else:
-                kw[name] = ["match", {"t": "P", "kw": {c.pick(["a", "b"]): ["lit", c.int(0, 3)]}}]
+                inner = c.pick(["a", "b"])
+                kw[name] = ["match", {"t": "P", "kw": {inner: ["lit", items[model["ref"]][inner] if like else c.int(0, 3)]}}]
+        if not kw:
+            kw["a"] = ["lit", model["a"]]
         sc["queries"] = [{"q": "the" if c.chance(0.15) else "an", "pattern": {"t": "P", "dom": 0, "kw": kw}}]
     else:  # endless
         pattern = [c.int(0, 3) for _ in range(c.int(1, 4))]
